@@ -462,6 +462,13 @@ class Interp:
 
     _MUTATORS = {"append", "extend", "insert", "pop", "clear", "remove", "reverse", "sort", "setdefault", "update", "popitem", "add", "discard", "__setitem__", "__delitem__", "__setattr__"}
 
+    def _note_memo_result(self, fn, r):
+        if type(fn).__name__ == "_lru_cache_wrapper" and isinstance(r, (dict, list, set, bytearray)):
+            # what a memoised function returns is the cached object itself: it outlives the call
+            w = getattr(fn, "__wrapped__", fn)
+            self.ctx.ghost.setdefault("memo_results", {})[id(r)] = (r, f"the memoised result of {getattr(w, '__module__', '?')}.{getattr(w, '__qualname__', w)}")
+        return r
+
     def native(self, fn, args, kwargs):
         nm = getattr(fn, "__name__", "")
         if nm in self._MUTATORS:
@@ -471,7 +478,7 @@ class Interp:
             elif args and isinstance(fn, (types.MethodDescriptorType, types.WrapperDescriptorType)):
                 self.note_write(args[0], f"{type(args[0]).__name__}.{nm}")
         try:
-            return fn(*args, **kwargs)
+            return self._note_memo_result(fn, fn(*args, **kwargs))
         except INTERNAL:
             raise
         except PyExc:
@@ -610,10 +617,14 @@ class Interp:
             self.raise_(e, node, frame)
 
     def note_write(self, obj, what=""):
-        """frame condition: a write to an object that outlives the call (module global, class attribute)"""
+        """frame condition: a write to an object that outlives the call (module global, class attribute, memoised result)"""
         from . import frame as F
 
         o = F.owner_of(obj)
+        if o is None:
+            d = self.ctx.ghost.get("memo_results", {}).get(id(obj))
+            if d is not None and d[0] is obj:
+                o = d[1]
         if o is not None:
             self.ctx.frame_writes.append(f"{what} -> {o}")
 
